@@ -29,7 +29,8 @@ CLANG_TRIPLE = {"x86_64-sysv": "x86_64-linux-gnu", "aarch64": "aarch64-linux-gnu
 
 FID_AARCH64 = "aarch64-unnamed-bitfield-align"
 FID_UNION = "union-unnamed-bitfield-size"
-FID_ENUM0 = "enum-fixed-unsigned-first-implicit"
+# "enum-fixed-unsigned-first-implicit" (`enum E : unsigned { A };` rejected) was repaired by /repo commit bb180d9:
+# its witness stays in ENUM_FIXED_WITNESS (run first, must be accepted); Props/C06.lean: enum_accepts is unconditional.
 
 PRELUDE = """typedef int (*fp_t)(void);
 enum Ea {Ea0}; enum Eb {Eb0 = -1}; enum Ec {Ec0 = 0x100000000}; enum Ed {Ed0 = -0x100000000L};
@@ -781,17 +782,24 @@ def enum_drv(e, tg="x86_64-sysv"):
     return "%s %s" % (f, its)
 
 
-def enum_first_implicit_unsigned_fixed(e, tg):
-    """predicate of finding enum-fixed-unsigned-first-implicit"""
-    eid, fixed, items = e
-    return fixed is not None and not fixed_signed(fixed, tg) and items and items[0] is None
+# witnesses of repaired defects (fixed type, items): must pass - a failure is an ordinary violation
+ENUM_FIXED_WITNESS = [
+    (("unsigned", 4, False), [None, None]),                 # bb180d9: enum E : unsigned { A, B };
+    (("unsigned char", 1, False), [None]),
+    (("unsigned long long", 8, False), [None, ("5", 5, 4, True), ("0", 0, 4, True), None]),
+]
 
 
 def run_enums(ck, cproc, n):
     rng = ck.rng
     enums = [gen_enum(rng, i) for i in range(n)]
     # witnesses first
-    wit = [(n + 0, ("unsigned", 4, False), [None, None]), (n + 1, None, [("0x7fffffff", 2**31 - 1, 4, True), None]),
+    wit = [(n + 10 + k, f, its) for k, (f, its) in enumerate(ENUM_FIXED_WITNESS)]
+    # the wrap-around test of tagspec must still reject an implicit enumerator after ULONG_MAX / LONG_MAX
+    wit += [(n + 6, ("unsigned long", 8, False), [("((unsigned long)18446744073709551615ul)", 2**64 - 1, 8, False), None]),
+            (n + 7, ("long", 8, True), [("9223372036854775807", 2**63 - 1, 8, True), None]),
+            (n + 8, None, [("((unsigned long)18446744073709551615ul)", 2**64 - 1, 8, False), None])]
+    wit += [(n + 1, None, [("0x7fffffff", 2**31 - 1, 4, True), None]),
            (n + 2, None, [("0xffffffff", 2**32 - 1, 4, False), None]), (n + 3, None, [("(-1)", I64 - 1, 4, True), ("0xffffffff", 2**32 - 1, 4, False)]),
            (n + 4, None, [("0x7fffffffffffffff", 2**63 - 1, 8, True), None]), (n + 5, ("unsigned char", 1, False), [("255", 255, 4, True), None])]
     enums = wit + enums
@@ -839,16 +847,12 @@ def run_enums(ck, cproc, n):
             replay = {"kind": "enum", "target": tg, "program": enum_c(e), "cproc": c, "model": m, "spec": s}
             if cs != ss:
                 # the code's own output fails the spec
-                if enum_first_implicit_unsigned_fixed(e, tg) and cs == "error" and ms == "error":
-                    finding(ck, FID_ENUM0, dict(replay, what="enum with a fixed unsigned underlying type whose first "
-                                                "enumerator has no '=' is rejected"))
-                else:
-                    replay["what"] = "enum underlying type (or acceptance) differs from the ABI/GCC rule"
-                    ck.violation(replay)
-                    return stats
+                replay["what"] = "enum underlying type (or acceptance) differs from the ABI/GCC rule"
+                ck.violation(replay)
+                return stats
             elif cs != ms:
                 replay["what"] = "tagspec (enum branch) and Model/Layout.lean disagree although the output satisfies the spec"
-                replay["theorem"] = "CprocVerif.C06.enum_underlying_correct"
+                replay["theorem"] = "CprocVerif.C06.enum_underlying_iff"
                 ck.violation(replay, nofail=True)
                 return stats
             if c[0] == "ok" and c[2] != int(c[1][:-1]):
@@ -1257,8 +1261,8 @@ META = {
              "exactly the bit-cursor layout of Spec/Abi.lean (layout_correct; unions and AAPCS64 with the stated exclusions, "
              "their full statements refuted by concrete witnesses), and for every accepted list: members do not overlap, are "
              "aligned, every bit-field's storage unit lies inside the object, before+width+after = 8*sizeof T, sizeof is a "
-             "multiple of _Alignof, union members sit at offset 0, and the enum underlying type is GCC's choice and "
-             "represents every enumerator.  Tied to /repo on every run by compiling generated types for all three targets "
+             "multiple of _Alignof, union members sit at offset 0, and tagspec accepts an enum exactly when the C23/GCC "
+             "rule gives it a type, with that type, which represents every enumerator (enum_underlying_iff).  Tied to /repo on every run by compiling generated types for all three targets "
              "and comparing every observable number with the model and the spec; the spec itself is validated against gcc "
              "and clang --target on the same types."),
     "design_ref": "DESIGN.md section 4, C06",
